@@ -89,6 +89,19 @@ theorem find_count_replicate_partial (inp : FindInput) (a b c : Nat) (epsSq : Ra
     (find (inp.replicate a b c) ax1' oracle' choose').length = a * b * c * (find inp ax1 oracle choose).length := by
   rw [find_count_eq_occ_partial _ _ _ _ _ h', find_count_eq_occ_partial _ _ _ _ _ h, occ_replicate_count inp a b c epsSq hG]
 
+/-- `FindIsOcc` without its `distinct` field: on the guarded domain the atoms of an occurrence are pairwise different
+    atoms by `occ_atoms_distinct`, so only the guards, soundness (C01) and `OracleAligns` remain as hypotheses -/
+theorem findIsOcc_of_guards (inp : FindInput) (ax1 : Nat) (oracle : Nat → Nat → Quat) (choose : Nat → List Nat → Nat)
+    (epsSq : Rat) (hS : searchGuards inp = true) (hG : countGuards inp epsSq = true)
+    (sound : ∀ k ∈ (find inp ax1 oracle choose).map Match.key, Occ inp epsSq k)
+    (aligned : ∀ g n, RigidOccurrence inp epsSq g n → OracleAligns inp ax1 oracle (occTuple inp g n)) :
+    FindIsOcc inp ax1 oracle choose epsSq :=
+  { guards := hS, eps := (countGuards_spec inp epsSq hG).eps, sound := sound,
+    distinct := fun g n h i j hji hi e => by
+      have := occ_atoms_distinct inp epsSq (countGuards_spec inp epsSq hG) g n h j i (by omega) hi e
+      omega
+    aligned := aligned }
+
 /-! ## non-vacuity -/
 
 /-- a roomy cell (8 Å cube, O…O pattern of 1.5 Å, atol 0.05): the guard holds for exact fits and for ε = atol/2 -/
